@@ -116,6 +116,10 @@ type Path struct {
 	tags      map[string]bool
 	ghost     map[string]value
 	fbModel   map[string]string // model obtained from a fallback solver (raw SMT values)
+
+	thr       *threadState       // non-nil once the path has spawned a thread
+	lockState map[*value]int     // all threads: 1 = write-held, -n = n readers
+	wgCount   map[*value]int     // WaitGroup counters
 }
 
 // ---------------------------------------------------------------------------
@@ -422,10 +426,6 @@ func (p *Path) unwindExceeded(fr *frame) {
 	panic(pathAbort{"unwind"})
 }
 
-func (p *Path) onGo(fr *frame, instr *ssa.Go) {
-	panic(engineError{"unsupported: go statement at " + fr.posOf(instr)})
-}
-
 func (p *Path) noteFPConv(inRange *Term) {
 	// statistics only: how many float->int conversions had a symbolic operand
 	atomic.AddInt64(&p.run.fpConvOOR, 1)
@@ -530,6 +530,12 @@ func (p *Path) assertProp(label string, v value) {
 
 // crossCheck re-asks an unsat assert query with the secondary solvers.
 func (p *Path) crossCheck(label string, t *Term) {
+	// sample: the first 200 assert queries of a harness, then every 20th up to
+	// 20000, then every 1000th (each is two one-shot solver processes)
+	n := atomic.AddInt64(&p.run.xcount, 1)
+	if (n > 200 && n%20 != 0) || (n > 20000 && n%1000 != 0) {
+		return
+	}
 	ref := p.sol.ref(t)
 	var sb strings.Builder
 	for _, l := range p.sol.transcript {
@@ -542,10 +548,6 @@ func (p *Path) crossCheck(label string, t *Term) {
 	sb.WriteString("(assert (not " + ref + "))\n(check-sat)\n")
 	script := sb.String()
 	hasStr := strings.Contains(script, "str.")
-	n := atomic.AddInt64(&p.run.xcount, 1)
-	if n > 300 && n%20 != 0 {
-		return // sample: the first 300 assert queries of a harness, then every 20th
-	}
 	for _, bin := range p.eng.xsolvers {
 		if hasStr && strings.Contains(bin, "cvc5") {
 			continue // cvc5 1.0 stalls on str.from_int (measured); strings go to z3 5.1 only
@@ -797,6 +799,8 @@ func (r *HarnessRun) runPath(sol *Solver, prefix []int32, concrete map[string]in
 		nameCount: map[string]int{},
 		classes:   map[string]value{},
 		held:      map[*value]int{},
+		lockState: map[*value]int{},
+		wgCount:   map[*value]int{},
 		lockNames: map[*value]string{},
 		concrete:  concrete,
 		tags:      map[string]bool{},
@@ -810,6 +814,18 @@ func (r *HarnessRun) runPath(sol *Solver, prefix []int32, concrete map[string]in
 				switch x := x.(type) {
 				case pathAbort:
 					reason = x.why
+				case threadCrash:
+					reason = "panic"
+					func() {
+						defer func() {
+							if y := recover(); y != nil {
+								if _, ok := y.(pathAbort); !ok {
+									panic(y)
+								}
+							}
+						}()
+						p.violation("no-panic", nil, "panic in goroutine: "+panicText(p, x.x))
+					}()
 				case targetPanic:
 					reason = "panic"
 					if p.expectPanic {
@@ -851,6 +867,7 @@ func (r *HarnessRun) runPath(sol *Solver, prefix []int32, concrete map[string]in
 		if init := r.entry.Pkg.Func("init"); init != nil {
 			callSSA(p, nil, 0, init, nil, nil)
 		}
+		defer p.endThreads()
 		callSSA(p, nil, 0, r.entry, nil, nil)
 		if len(p.held) > 0 {
 			var names []string
